@@ -380,7 +380,7 @@ class Contract:
     """Sidecar contract of one function (see /verif/contracts/*.py)."""
 
     def __init__(self, module, name, params, requires=(), ensures=(), loops=None, abstract=None, ghost_after=None,
-                 ghost_before=None, notes='', ensures_raises=None, setup=None, assume_after=None, stop_at=None, key=None, nonlinear=None, fragment=None):
+                 ghost_before=None, notes='', ensures_raises=None, setup=None, assume_after=None, stop_at=None, key=None, nonlinear=None, fragment=None, inputs=None):
         self.module, self.name, self.params = module, name, params
         self.requires, self.ensures = list(requires), list(ensures)
         self.loops = dict(loops or {})
@@ -395,6 +395,7 @@ class Contract:
         self.key = key or name
         self.nonlinear = nonlinear
         self.fragment = fragment
+        self.inputs = inputs       # [(param, z3 const name, kind, size const)] for replaying solver counter-models on the real function
 
 
 class Engine:
